@@ -378,13 +378,23 @@ def dispatch(ctx, fi, R):
   ctx.ob('DISPATCH/else-raises', fi, loop, ok, 'an unknown event type raises' if ok else 'the dispatch has no raising else: unknown ranks are silently ignored', construct='else: raise')
   # the final loop does not depend on the dispatch: judged before the branch rules (which give up when a branch is missing)
   tail = [n for n in fn.body if isinstance(n, ast.For) and ('%s.values()' % ACT) in norm_text(n.iter)]
-  ok = len(tail) == 1 and any(isinstance(x.targets[0], ast.Attribute) and x.targets[0].attr == 'end_time' and norm_text(x.value) == T
+
+  def is_last_time(v):
+    """the loop variable holding the event time (its value after the loop is the last event's), or the first component of
+    the last element of the sorted event list (0 when there are no events)"""
+    if norm_text(v) == T:
+      return True
+    x = U.expand_locals(fn, v, depth=1)      # one level: the event list itself is a mutable object, not a value to look through
+    if isinstance(x, ast.IfExp) and norm_text(x.test) == R.events and U.const_value(x.orelse) == 0:
+      x = x.body
+    return norm_text(x) == '%s[-1][0]' % R.events
+  ok = len(tail) == 1 and any(isinstance(x.targets[0], ast.Attribute) and x.targets[0].attr == 'end_time' and is_last_time(x.value)
                               for x in ast.walk(tail[0]) if isinstance(x, ast.Assign)) if tail else False
   # positively identified: the final loop over the active lists stores another value than the last event time into end_time
-  other = [x for x in ast.walk(tail[0]) if isinstance(x, ast.Assign) and isinstance(x.targets[0], ast.Attribute) and x.targets[0].attr == 'end_time' and norm_text(x.value) != T] if len(tail) == 1 else []
+  other = [x for x in ast.walk(tail[0]) if isinstance(x, ast.Assign) and isinstance(x.targets[0], ast.Attribute) and x.targets[0].attr == 'end_time' and not is_last_time(x.value)] if len(tail) == 1 else []
   if not other:
     tl2 = [n for n in fn.body if isinstance(n, ast.For) and ACT in norm_text(n.iter)]
-    other = [x for n in tl2 for x in ast.walk(n) if isinstance(x, ast.Assign) and isinstance(x.targets[0], ast.Attribute) and x.targets[0].attr == 'end_time' and norm_text(x.value) != T] if not ok else []
+    other = [x for n in tl2 for x in ast.walk(n) if isinstance(x, ast.Assign) and isinstance(x.targets[0], ast.Attribute) and x.targets[0].attr == 'end_time' and not is_last_time(x.value)] if not ok else []
   ctx.ob('BRANCH/leftovers', fi, other[0] if other else (tail[0] if tail else fn), ok, 'notes still held at the end are closed at the last event time' if ok else
          ('notes still held at the end are closed at %s, not at the time of the last note/pedal event of the piece' % norm_text(other[0].value) if other else
           'notes still held at the end are not closed at the last event time'), construct='for active notes: end_time = time', definite=bool(other))
